@@ -57,6 +57,7 @@ def run(prog, chk):
     local_style_invariant(prog, chk)
     rng_discipline(prog, chk)
     output_order(prog, chk)
+    reviewed_hash_loop_commutes(prog, chk)
 
 
 # ---------------------------------------------------------------------------
@@ -112,6 +113,9 @@ def hash_iteration(prog, chk):
 
 def short_ty(t):
     return t.replace("std::collections::", "").replace("std::string::", "").replace("svgdx::", "")[:90]
+
+
+ORDER_SELECTING = {"take", "skip", "step_by", "take_while", "skip_while", "map_while", "enumerate", "zip", "chain", "scan", "dedup", "dedup_by", "dedup_by_key", "tuple_windows", "chunks", "nth", "interleave", "tuples"}
 
 
 def consumer_of(prog, body, local, from_bb, depth=12):
@@ -174,6 +178,9 @@ def consumer_of(prog, body, local, from_bb, depth=12):
             return "collect", f"collected into {short_ty(dty)} (sequence order = hash order)"
         if last == "extend" :
             return "extend", "extends a collection"
+        if last in ORDER_SELECTING:
+            # which elements survive (or how they are paired / numbered) depends on the visiting order: a later sort cannot repair it
+            return "order-selecting:" + last, f".{'.'.join(chain)}() selects, pairs or numbers elements by visiting order before any sort"
         if last in ADAPTERS or "std::iter::" in dty or "itertools::" in dty or "hash_map::" in dty or "hash_set::" in dty:
             if node["dest"][1]:
                 return "unknown", "adapter result stored in a projection"
@@ -506,3 +513,53 @@ def output_order(prog, chk):
     cl = prog.adt("svgdx::types::ClassList")
     ok4 = all(not is_hash_ty(f["ty"]) for v in cl["variants"] for f in v["fields"])
     chk.ob(ok4, "A8.output-order", "ClassList", "src/types.rs", "ClassList stores classes in an ordered container", "ClassList stores classes in a hash container")
+
+
+def reviewed_hash_loop_commutes(prog, chk):
+    """the one order-visible loop over a HashMap that the table accepts (the <reuse> attribute override loop) is
+    accepted because its passes commute: every pass writes only the key it is visiting.  That reason is checked: each
+    attribute write inside the loop uses the loop's key variable, or a literal that is one of the literal patterns of
+    the arm it stands in (`"transform" => .. set_attr("transform", ..)`)"""
+    from sa import hirq
+
+    b = prog.body("<svgdx::reuse::ReuseElement as svgdx::transform::EventGen>::generate_events")
+    h = prog.hir[b.id]
+    n = 0
+    for lp in hirq.exprs(h["body"], "Loop"):
+        if lp.get("src") != "ForLoop":
+            continue
+        # loop variables: binds of the Some(..) arm of the desugared match
+        binds = []
+        arms_body = None
+        for m in hirq.exprs(lp, "Match"):
+            if m.get("src") == "ForLoopDesugar":
+                for a in m["arms"]:
+                    bs = [q["name"] for q in hirq.walk(a["pat"]) if isinstance(q, dict) and q.get("p") == "bind"]
+                    if bs:
+                        binds = bs
+                        arms_body = a["body"]
+                break
+        if not binds or arms_body is None:
+            chk.anchor_missing("A8.hash-loop-commutes", "ReuseElement: loop variables of the override loop not found")
+            continue
+        keyvar = binds[0]
+        # the override loop is the one whose body dispatches on the key: `match <key>.as_str() { .. }`
+        if len(binds) != 2 or not any(m.get("src") == "Normal" and hirq.field_chain(m["scrut"].get("recv", {})) == [keyvar] for m in hirq.exprs(arms_body, "Match") if m["scrut"].get("k") == "MethodCall"):
+            continue
+        # arms of the match over the key
+        for m in hirq.exprs(arms_body, "Match"):
+            if m.get("src") != "Normal":
+                continue
+            for arm in m["arms"]:
+                lits = hirq.pat_strs(arm["pat"])
+                for mc in hirq.exprs(arm["body"], "MethodCall"):
+                    if mc["name"] not in ("set_attr", "insert", "insert_first", "set_default_attr", "pop_attr", "remove_attrs") or not mc["args"]:
+                        continue
+                    n += 1
+                    k = mc["args"][0]
+                    lit = hirq.lit_str(k)
+                    fc = hirq.field_chain(k)
+                    ok = (fc == [keyvar]) or (lit is not None and lit in lits)
+                    chk.ob(ok, "A8.hash-loop-commutes", f"ReuseElement:{mc['name']}#{n}", b.where(line=mc.get("line")), f"writes the key being visited ({lit or keyvar})", f"a pass of the <reuse> override loop (iterating a HashMap, order differs between processes) writes an attribute other than the one it is visiting ({lit or hirq.render_string_expr(k) or '?'}): two passes can now write the same attribute, so the result depends on the iteration order")
+            break
+    chk.floor("A8.hash-loop-commutes", n, 2, "attribute write in the <reuse> override loop")
